@@ -540,6 +540,11 @@ func c12PreStates(sc *c12Scen, clean []byte, stale map[string][]byte, r *rand.Ra
 			d[k] ^= bit
 			add("flip", fmt.Sprintf("output(S) byte %d ^= 0x%02x", k, bit), c12OffClass(clean, pkg, k, false), d, false)
 		}
+		// the clean output EXTENDED by something (an older version had one more function at the end;
+		// junk appended by a crashed editor): the new output is a strict prefix of what is there
+		for i, tail := range []string{"\n// stale trailing comment\n", "\nfunc staleExtra12() int { return 12 }\n", "garbage", "\n", "\x00\x00"} {
+			add("extended", fmt.Sprintf("output(S) + %q", tail), fmt.Sprintf("ext#%d", i), append(append([]byte{}, clean...), []byte(tail)...), i < 2)
+		}
 		// the whole old output under a different package name (package was renamed since)
 		add("otherpkg", "output(S) with package clause renamed", "renamed-output",
 			bytes.Replace(clean, []byte("\npackage "+pkg+"\n"), []byte("\npackage "+pkg+"old\n"), 1), true)
